@@ -10,6 +10,7 @@ import (
 	"strings"
 	"time"
 
+	abci "github.com/cometbft/cometbft/abci/types"
 	sdk "github.com/cosmos/cosmos-sdk/types"
 	vestexported "github.com/cosmos/cosmos-sdk/x/auth/vesting/exported"
 	govv1 "github.com/cosmos/cosmos-sdk/x/gov/types/v1"
@@ -22,6 +23,9 @@ import (
 type GovSpec struct {
 	Kind   string // model.EntParams | WrkParams | BcnParams | StrParams
 	Params any
+	// Msg, if set, is an arbitrary message executed by the proposal with the gov module account
+	// as its acting party (e.g. a purchase order raised by governance); Kind/Params are ignored
+	Msg *model.Msg
 }
 
 // Action is one letter of a scenario alphabet: one block (time step + transactions), or a
@@ -74,6 +78,9 @@ type Exec struct {
 	PreM *model.State
 	// Visit: per-block oracle/observer run after every committed block (it may keep observations in M.Obs)
 	Visit func(e *Exec) []Disc
+	// events of the block being / last executed (for event-based oracles)
+	BeginEvents, EndEvents []abci.Event
+	TxEvents               [][]abci.Event
 	// InitDiscs: what Visit reported on the genesis state
 	InitDiscs []Disc
 	// Annotate may add discrete facts to a discrepancy (for known-finding signatures)
@@ -135,7 +142,8 @@ func (e *Exec) beginBlock(dt time.Duration) (discs []Disc, halted bool) {
 
 func (e *Exec) beginBlockAt(newT time.Time) (discs []Disc, halted bool) {
 	before := e.spendables(newT)
-	_, pan := e.W.BeginBlockAt(newT)
+	bb, pan := e.W.BeginBlockAt(newT)
+	e.BeginEvents, e.EndEvents, e.TxEvents = bb.Events, nil, nil
 	completed, _, _ := e.M.BeginBlock(timeNs(newT))
 	if pan != "" {
 		return []Disc{{Kind: "panic:BeginBlock", Detail: "BeginBlock panicked: " + firstLine(pan), Sig: map[string]string{"phase": "BeginBlock", "panic": firstLine(pan)}}}, true
@@ -191,6 +199,7 @@ func (e *Exec) deliver(tx model.Tx) (TxObs, []Disc, bool) {
 	r := w.DeliverTx(bz)
 	obs.Res, obs.Code, obs.Space, obs.Log, obs.GasUsed = r, r.Code, r.Codespace, firstLine(r.Log), r.GasUsed
 	post := StoresDump(w)
+	e.TxEvents = append(e.TxEvents, r.Events)
 	e.PostBal = e.ReadBalances()
 	obs.AnteOK = e.seqOf(payer) != seq0
 	diverged := false
@@ -281,7 +290,9 @@ func txJSON(tx model.Tx) string {
 
 // endBlock finishes the block; returns discrepancies for panics.
 func (e *Exec) endBlock() (hash []byte, discs []Disc, halted bool) {
-	if _, pan := e.W.EndBlock(); pan != "" {
+	eb, pan := e.W.EndBlock()
+	e.EndEvents = eb.Events
+	if pan != "" {
 		return nil, []Disc{{Kind: "panic:EndBlock", Detail: "EndBlock panicked: " + firstLine(pan), Sig: map[string]string{"phase": "EndBlock", "panic": firstLine(pan)}}}, true
 	}
 	h, pan := e.W.Commit()
@@ -340,6 +351,13 @@ func (e *Exec) Run(a *Action, oracle bool) (StepObs, []Disc) {
 	} else {
 		e.runGov(a, &obs, &discs)
 	}
+	if e.Annotate != nil {
+		for i := range discs {
+			if strings.HasPrefix(discs[i].Kind, "panic:") {
+				e.Annotate(e, &discs[i], nil)
+			}
+		}
+	}
 	if oracle && !obs.Halted {
 		discs = append(discs, SelfConsistency(e.W)...)
 		if !obs.Diverged {
@@ -355,7 +373,11 @@ func (e *Exec) runGov(a *Action, obs *StepObs, discs *[]Disc) {
 	w, m := e.W, e.M
 	g := a.Gov
 	valid := true
-	switch g.Kind {
+	kind := g.Kind
+	if g.Msg != nil {
+		kind = ""
+	}
+	switch kind {
 	case model.EntParams:
 		valid = model.ValidEnt(g.Params.(model.EntParamsRaw))
 	case model.WrkParams, model.BcnParams:
@@ -374,13 +396,19 @@ func (e *Exec) runGov(a *Action, obs *StepObs, discs *[]Disc) {
 		obs.Halted = true
 		return
 	}
-	inner := BuildMsg(w, model.Msg{Kind: g.Kind, From: model.ModGov, Params: g.Params})
+	im := model.Msg{Kind: g.Kind, From: model.ModGov, Params: g.Params}
+	if g.Msg != nil {
+		im = *g.Msg
+		im.From = model.ModGov
+	}
+	inner := BuildMsg(w, im)
 	dep := sdk.NewCoins(sdk.NewInt64Coin(mc.Nund, 10))
 	sub, err := govv1.NewMsgSubmitProposal([]sdk.Msg{inner}, dep, w.Bech("V"), "", "verif param change", "verif param change")
 	must(err)
 	pid, err := w.App.GovKeeper.GetProposalID(w.Ctx())
 	must(err)
 	r1 := w.DeliverTx(w.MustSign(mc.TxSpec{Msgs: []sdk.Msg{sub}, Signers: []string{"V"}}))
+	e.TxEvents = append(e.TxEvents, r1.Events)
 	vote := govv1.NewMsgVote(w.Addr("V"), pid, govv1.OptionYes, "")
 	r2 := w.DeliverTx(w.MustSign(mc.TxSpec{Msgs: []sdk.Msg{vote}, Signers: []string{"V"}}))
 	obs.Txs = append(obs.Txs, TxObs{Code: r1.Code, Log: firstLine(r1.Log), Pred: fmt.Sprintf("gov-submit valid=%v", valid)}, TxObs{Code: r2.Code, Log: firstLine(r2.Log), Pred: "gov-vote"})
@@ -422,7 +450,9 @@ func (e *Exec) runGov(a *Action, obs *StepObs, discs *[]Disc) {
 		if m.Bal[model.ModGov][mc.Nund].Sign() == 0 {
 			delete(m.Bal[model.ModGov], mc.Nund)
 		}
-		if valid {
+		if g.Msg != nil {
+			m.ExecMsgs(e.env(), model.Tx{Msgs: []model.Msg{im}}) // a failing message fails the proposal and changes nothing
+		} else if valid {
 			if why := m.SetParams(g.Kind, g.Params); why != "" {
 				panic("harness: model rejected params it called valid")
 			}
